@@ -12,7 +12,7 @@ RULE = ("Generated relations R(key..., cost...) declared btree_delete with subsu
         "columns, expressed by two subsumptive clauses), irreflexive and transitive by construction. Three families: monotone cost "
         "programs (smaller wins; recursive rules update the cost by c+w or max(c,w), w >= 0, under the downward-closed guard "
         "c < CAP over a random weighted graph -- shortest-distance style), unrestricted ones (either direction, extra "
-        "non-recursive rules) and 'offers' (35%: a non-recursive relation of 20-900 tuples over 0-2 key and 1-2 cost columns fed from "
+        "non-recursive rules) and 'offers' (35%: a non-recursive relation of 20-500 tuples over 0-2 key and 1-2 cost columns fed from "
         "a fact file (.input), inline facts, a copy rule or a mix, in ascending/descending/shuffled order; bulk tuples expanded from "
         "one generated seed; U = the supplied tuples, expectation exact: R == the non-dominated tuples of U). U := reference evaluation (dlref) of the program WITHOUT the subsumptive clauses. Oracle: (1) no final "
         "tuple is dominated by another final tuple; (2) R is a subset of U; (3) the interpreter's R at -j1 equals R at -jN (N in "
@@ -29,7 +29,7 @@ def gen_offers(ch):
     nkeys = ch.choice([1, 1, 2, 0])
     ncost = ch.choice([1, 1, 2])
     smaller = ch.bool(0.5)
-    n = ch.choice([ch.int(20, 120), ch.int(120, 400), ch.int(400, 900)])
+    n = ch.choice([ch.int(20, 120), ch.int(120, 300), ch.int(300, 500)])
     kdom = max(1, n // ch.choice([1, 2, 4, 8, 30]))
     cdom = ch.choice([3, 8, 40, 1000])
     rnd = random.Random(ch.int(0, (1 << 30) - 1))
@@ -111,9 +111,9 @@ def gen(ch):
         P.rules.append(Rule(Atom("r", heads(C, zero)), [Atom("s", [X, C])]))
         upd = Fn("+", [C, Wt], NUMBER) if ch.bool(0.6) else Fn("max", [C, Wt], NUMBER)
         body = [Atom("r", heads(C, D)), Atom("e", [X, Y, Wt]), Cmp("<", C, Const(cap, NUMBER), NUMBER)]
-        rr = Rule(Atom("r", heads(upd, Fn("+", [D, Const(1, NUMBER)], NUMBER) if ncost == 2 else None)), body)
         if ncost == 2:
             body.append(Cmp("<", D, Const(cap, NUMBER), NUMBER))
+        rr = Rule(Atom("r", heads(upd, Fn("+", [D, Const(1, NUMBER)], NUMBER) if ncost == 2 else None)), body)
     elif nkeys == 1:
         heads = lambda k, c, d: [k, c] + ([d] if ncost == 2 else [])
         P.rules.append(Rule(Atom("r", heads(X, C, zero)), [Atom("s", [X, C])]))
@@ -226,7 +226,7 @@ def judge(case, st=None):
             st.classes[case.get("family") or ("monotone" if case["mono"] else "unrestricted")] += 1
             if case.get("family") == "offers":
                 st.classes["offers:source=%s" % case["source"]] += 1
-                st.classes["offers:n>=%d" % (400 if case["n"] >= 400 else 120 if case["n"] >= 120 else 0)] += 1
+                st.classes["offers:n>=%d" % (300 if case["n"] >= 300 else 120 if case["n"] >= 120 else 0)] += 1
             st.classes["keys=%d,costs=%d" % (nk, case["ncost"])] += 1
             st.sample({"program": case["program"], "variant": case["variant"], "unsubsumed_size": len(U), "result_size": nR})
         else:
